@@ -1,4 +1,6 @@
 """C10.c: UDF file-identifier packing across sector boundaries (CrossHair harness, no z3 import)."""
+import os
+import sys
 from vf import h, skel
 
 h.fix_env()
@@ -56,3 +58,169 @@ def fid_packing(n0: int, n1: int, n2: int) -> bool:
     ok = ok & (root.info_len == off)
     ok = ok & skel.spans_ok(iso, skel.collect_spans(iso))
     return h.post(ok)
+
+
+def udf_reader(l0: int, l1: int, l2: int) -> bool:
+    """
+    pre: RMIN <= l0 <= RMAX and RMIN <= l1 <= RMAX and RMIN <= l2 <= RMAX
+    post: _
+    """
+    # C10.b: the independent ECMA-167 reader over the bytes written by the REAL write_fp (symbolic file lengths)
+    global LAST_DETAIL
+    from vf.ref import udf as refudf
+    from vf.ref.iso import Bad
+    from vf.skel import SKELETONS
+    cfg = h.P.get('cfg') or skel.cfg_of(3, None, None, True, False)
+    if h.P.get('fixed'):
+        l1, l2 = h.P['fixed']
+    iso = skel.new_iso(cfg)
+    SKELETONS[h.P.get('sk', 'sk1')](iso, [l0, l1, l2], cfg)
+    out = h.OutFP()
+    iso.write_fp(out, blocksize=1 << 40)
+    img = h.ImageFP(out)
+
+    def rd(pos, n):
+        img.seek(pos)
+        return img.read(n)
+
+    def rd_sym(pos, n):
+        # a descriptor written at a symbolic position: the only candidates are the writer's own symbolic-position metadata
+        # writes; the bytes are those of the candidate whose start EQUALS pos (an equation of the result, no path fork)
+        cands = [(p, d) for (p, d) in img.sym_chunks if len(d) >= n]
+        if not cands:
+            # the writer's position was concrete on this path although the volume size is a symbolic term: an ordinary read
+            return rd(pos, n), True
+        if len(cands) != 1:
+            raise Bad('%d candidate descriptors at a symbolic position' % len(cands))
+        return cands[0][1][:n], cands[0][0] == pos
+    try:
+        tree, ok, info = refudf.walk(rd, iso.pvd.space_size, not h.SYM, rd_sym, h.concrete)
+    except Bad as e:
+        LAST_DETAIL = str(e)
+        if os.environ.get('VF_DBG'):
+            print('DBG bad', e, file=sys.stderr)
+        return False
+    if os.environ.get('VF_DBG'):
+        print('DBG reader-ok', bool(ok), file=sys.stderr)
+    api = {}
+    for dirname, dirlist, filelist in iso.walk(udf_path='/'):
+        for f in filelist:
+            p = dirname.rstrip('/') + '/' + f
+            api['/'.join([''] + [c.encode('latin-1').hex() for c in p.strip('/').split('/')])] = ('f', iso.get_record(udf_path=p))
+        for d in dirlist:
+            p = dirname.rstrip('/') + '/' + d
+            api['/'.join([''] + [c.encode('latin-1').hex() for c in p.strip('/').split('/')])] = ('d', iso.get_record(udf_path=p))
+    if sorted(api) != sorted(tree):
+        LAST_DETAIL = 'tree mismatch: reader %r vs API %r' % (sorted(tree), sorted(api))
+        return False
+    for p, (kind, rec) in api.items():
+        t = tree[p]
+        if t[0] != kind:
+            return False
+        if kind == 'f' and len(t) > 2:
+            ok = ok & (t[2] == rec.get_data_length())
+            if bool(rec.get_data_length() != 0) and rec.inode is not None and t[4] == 5:
+                ok = ok & (info['part_start'] + t[3] == rec.inode.extent_location())
+    # the partition covers everything it describes and ends where the volume's last anchor begins
+    for b in info['blocks']:
+        ok = ok & (b < info['part_len'])
+    ok = ok & (info['part_start'] + info['part_len'] == iso.pvd.space_size - 1)
+    ok = ok & (info['num_files'] == len([1 for v in api.values() if v[0] == 'f'])) & (info['num_dirs'] == info['ndirs'])
+    return h.post(ok)
+
+
+def decode_symlink(b):
+    """independent ECMA-167 4/14.16.1 path-component decoder: returns the list of code points of the Unix-like target"""
+    out = []
+    i = 0
+    first = True
+    n = len(b)
+    while i < n:
+        if i + 4 > n:
+            return None
+        ctype, lci = b[i], b[i + 1]
+        if b[i + 2] != 0 or b[i + 3] != 0:
+            return None
+        if i + 4 + lci > n:
+            return None
+        ident = b[i + 4:i + 4 + lci]
+        if not first:
+            out.append(47)
+        if ctype == 2:
+            if not first or lci != 0:
+                return None
+        elif ctype == 4:
+            if lci != 0:
+                return None
+            out.append(46)
+        elif ctype == 3:
+            if lci != 0:
+                return None
+            out.extend([46, 46])
+        elif ctype == 5:
+            if lci < 2:
+                return None
+            if ident[0] == 8:
+                for k in range(1, lci):
+                    out.append(ident[k])
+            elif ident[0] == 16:
+                if (lci - 1) % 2:
+                    return None
+                k = 1
+                while k < lci:
+                    u = ident[k] * 256 + ident[k + 1]
+                    k += 2
+                    if 0xd800 <= u < 0xdc00:
+                        if k >= lci:
+                            return None
+                        u2 = ident[k] * 256 + ident[k + 1]
+                        k += 2
+                        if not 0xdc00 <= u2 < 0xe000:
+                            return None
+                        u = 0x10000 + (u - 0xd800) * 1024 + (u2 - 0xdc00)
+                    elif 0xdc00 <= u < 0xe000:
+                        return None
+                    out.append(u)
+            else:
+                return None
+        else:
+            return None
+        first = False
+        i += 4 + lci
+    return out
+
+
+def symlink_rt(t: str) -> bool:
+    """
+    pre: 1 <= len(t) <= MAXT
+    post: _
+    """
+    # C10.d: every normalised Unix-like target (no empty component except a leading one, no lone surrogate) is recovered from the bytes
+    # the REAL symlink_to_bytes emits, by the independent path-component decoder
+    cps = [ord(ch) for ch in t]
+    for cp in cps:
+        if 0xd800 <= cp < 0xe000 or cp == 0:
+            return True
+    if t == '/' or t.endswith('/') or '//' in t:
+        return True
+    s2b = getattr(skel, '_orig_s2b', udfmod.symlink_to_bytes)
+    data = s2b(t)
+    got = decode_symlink(data)
+    if got is None:
+        return False
+    if len(got) != len(cps):
+        return False
+    for a, b in zip(got, cps):
+        if a != b:
+            return False
+    return h.post(True)
+
+
+MAXT = int(h.P.get('maxt', 4))
+RMIN = int(h.P.get('minlen', 0))
+RMAX = int(h.P.get('maxlen', 0x3ffff800))
+LAST_DETAIL = None
+h.install_codecs()
+h.install_struct_model()
+h.stub_udf_crc()
+h.stub_progress()
